@@ -156,6 +156,29 @@ def _make_toggleset(obs: list, state: dict) -> Any:
     return ObsToggleSet(any)
 
 
+class Cluster19(fakeapi.Cluster):
+    """The fake cluster with a settable preferred API version per group (the stock one always prefers the
+    lexicographically first): `preferred[group] = version`."""
+
+    def __init__(self, *a: Any, **k: Any) -> None:
+        self.preferred: dict[str, str] = {}
+        super().__init__(*a, **k)
+
+    def discovery(self, path: str) -> dict | None:
+        d = super().discovery(path)
+        if d is not None and d.get("kind") == "APIGroupList":
+            for g in d["groups"]:
+                pv = self.preferred.get(g["name"])
+                if pv is not None and any(v["version"] == pv for v in g["versions"]):
+                    g["preferredVersion"] = {"groupVersion": f"{g['name']}/{pv}", "version": pv}
+        return d
+
+    def preferred_of(self, group: str) -> str | None:
+        vs = sorted(v for (g, v, _p) in self.resources if g == group)
+        pv = self.preferred.get(group)
+        return pv if pv in vs else (vs[0] if vs else None)
+
+
 def rebase_versions(cluster: fakeapi.Cluster, start: int | None) -> None:
     """Renumber a freshly built cluster so that its next resourceVersion is `start + <objects so far> + 1`:
     runs whose versions cross a power of ten ('9'→'10', '99'→'100', '999'→'1000') after a few events.
@@ -496,7 +519,7 @@ def run_operator(sc: dict, wall_limit: float = 60.0) -> dict:
         import kopf
         runner._patch_kopf()
         loop = asyncio.get_running_loop()
-        cluster = fakeapi.Cluster([fakeapi.NAMESPACES, fakeapi.CRDS])
+        cluster = Cluster19([fakeapi.NAMESPACES, fakeapi.CRDS])
         rebase_versions(cluster, sc.get("rv0"))
         for n in sc.get("initial_namespaces", []):
             if cluster.get(fakeapi.NAMESPACES, None, n) is None:
@@ -505,6 +528,23 @@ def run_operator(sc: dict, wall_limit: float = 60.0) -> dict:
             cluster.add_resource(RES_BY_NAME[p], announce=True)
         calls: list[dict] = []
         reg = kopf.OperatorRegistry()
+        for spec in sc.get("selectors", []):
+            # handlers that select by bare name / category / short name (no version, no group): what they serve
+            # depends on the CURRENT discovery (preferred version, categories, shortNames of the CRD)
+            def mks(tag: str) -> Any:
+                async def on_event(event: Any, name: Any, namespace: Any, body: Any, resource: Any, **_: Any) -> None:
+                    calls.append({"t": loop.time(), "res": resource.plural, "ver": resource.version, "ns": namespace, "name": name,
+                                  "type": event["type"], "rv": body.get("metadata", {}).get("resourceVersion"), "sel": tag})
+                return on_event
+            tag = f"{spec['by']}:{spec['value']}"
+            if spec["by"] == "name":
+                kopf.on.event(spec["value"], id=f"sel-{tag}", registry=reg)(mks(tag))
+            elif spec["by"] == "category":
+                kopf.on.event(category=spec["value"], id=f"sel-{tag}", registry=reg)(mks(tag))
+            elif spec["by"] == "shortcut":
+                kopf.on.event(shortcut=spec["value"], id=f"sel-{tag}", registry=reg)(mks(tag))
+            else:
+                raise ValueError(f"unknown selector {spec!r}")
         for p in sc["handlers"]:
             def mk(plural: str) -> Any:
                 async def on_event(event: Any, name: Any, namespace: Any, body: Any, **_: Any) -> None:
@@ -608,6 +648,12 @@ def run_operator(sc: dict, wall_limit: float = 60.0) -> dict:
             return sorted([[w.res.plural, w.ns] for w in cluster.watches if not w.closed],
                           key=lambda x: (x[0], str(x[1])))
 
+        def cur_attr(base: Any, attr: str) -> tuple:
+            for k, rd in cluster.resources.items():
+                if k[0] == base.group and k[2] == base.plural:
+                    return tuple(getattr(rd, attr))
+            return tuple(getattr(base, attr))
+
         def do(o: list) -> None:
             name = o[0]
             if name == "add_ns":
@@ -640,6 +686,31 @@ def run_operator(sc: dict, wall_limit: float = 60.0) -> dict:
                 cluster.compact(RES_BY_NAME[o[1]])
             elif name == "http410":
                 cluster.http_410 = bool(o[1])
+            elif name in ("add_version", "set_preferred", "set_categories", "set_shortnames", "del_version"):
+                base = RES_BY_NAME[o[1]]
+                if base.key not in cluster.resources and not any(k[0] == base.group and k[2] == base.plural for k in cluster.resources):
+                    return
+                if name == "add_version":
+                    nv = fakeapi.ResourceDef(base.group, o[2], base.plural, base.kind, namespaced=base.namespaced,
+                                             shortnames=cur_attr(base, "shortnames"), categories=cur_attr(base, "categories"))
+                    cluster.add_resource(nv, announce=False)
+                    if len(o) > 3 and o[3]:
+                        cluster.preferred[base.group] = o[2]
+                elif name == "del_version":
+                    key = (base.group, o[2], base.plural)
+                    if key in cluster.resources and sum(1 for k in cluster.resources if k[0] == base.group and k[2] == base.plural) > 1:
+                        for w in list(cluster.watches):
+                            if w.res.key == key:
+                                w.close()
+                        cluster.resources.pop(key)
+                elif name == "set_preferred":
+                    cluster.preferred[base.group] = o[2]
+                else:
+                    for k, rd in cluster.resources.items():
+                        if k[0] == base.group and k[2] == base.plural:
+                            setattr(rd, "categories" if name == "set_categories" else "shortnames", tuple(o[2]))
+                bump["n"] += 1      # the CRD object itself is MODIFIED: the observer re-scans its group
+                cluster.edit(fakeapi.CRDS, None, f"{base.plural}.{base.group}", {"spec": {"rev": bump["n"]}})
             elif name == "fail":
                 rule = {"plural": o[1], "status": int(o[2]), "count": int(o[3])}
 
@@ -653,7 +724,14 @@ def run_operator(sc: dict, wall_limit: float = 60.0) -> dict:
                 checkpoints.append({
                     "t": loop.time(),
                     "watches": open_watches(),
-                    "resources": sorted(k[2] for k in cluster.resources),
+                    "resources": sorted({k[2] for k in cluster.resources}),
+                    "watches_v": sorted([[w.res.group, w.res.version, w.res.plural, w.ns] for w in cluster.watches if not w.closed],
+                                        key=str),
+                    "discovery": sorted([{"group": rd.group, "version": rd.version, "plural": rd.plural, "kind": rd.kind,
+                                          "singular": rd.singular, "namespaced": rd.namespaced,
+                                          "preferred": cluster.preferred_of(rd.group) == rd.version if rd.group else True,
+                                          "categories": list(rd.categories), "shortnames": list(rd.shortnames), "verbs": list(rd.verbs)}
+                                         for rd in cluster.resources.values()], key=lambda x: (x["group"], x["plural"], x["version"])),
                     "namespaces": sorted(k[2] for k in cluster.objects if k[0] == fakeapi.NAMESPACES.key),
                     "objects": sorted([k[0][2], k[1], k[2], b["metadata"]["resourceVersion"]] for k, b in cluster.objects.items()
                                       if k[0][2] not in META),
